@@ -322,7 +322,7 @@ pub fn first_forbidden_offset(b: &[u8]) -> Option<usize> {
         };
         for (off, c) in valid.char_indices() {
             let u = c as u32;
-            let ok = u == 0x09 || u == 0x0A || u == 0x0D || (0x20..=0x7E).contains(&u) || u == 0x85 || (0xA0..=0xD7FF).contains(&u) || ((0xE000..=0xFFFD).contains(&u) && u != 0xFEFF) || (0x10000..=0x10FFFF).contains(&u);
+            let ok = u == 0x09 || u == 0x0A || u == 0x0D || (0x20..=0x7E).contains(&u) || u == 0x85 || (0xA0..=0xD7FF).contains(&u) || (0xE000..=0xFFFD).contains(&u) || (0x10000..=0x10FFFF).contains(&u);
             if !ok {
                 return Some(i + off);
             }
